@@ -8,7 +8,9 @@ MC = os.path.join(SPEC, "mc")
 WORK = os.path.join(ROOT, ".work")
 HARNESS = os.path.join(ROOT, "harness")
 VH = os.path.join(HARNESS, "target", "release", "vh")
-EVID = os.path.join(ROOT, "evidence")
+# tools that run the checks against a deliberately broken tree (mutants, seeded changes) point this elsewhere,
+# so that the committed evidence always describes the unchanged tree
+EVID = os.environ.get("VERIF_EVIDENCE_DIR") or os.path.join(ROOT, "evidence")
 REPLAYS = os.path.join(ROOT, "replays")
 KNOWN = os.path.join(ROOT, "known_findings.json")
 REPO = os.environ.get("VERIF_REPO", "/repo")
